@@ -4,7 +4,10 @@ from vlib import *
 from l2common import *
 import applyc, streams, gen, emit, scen
 
-THEOREMS = {"C12": [], "C13": [], "C14": [], "C20": []}
+THEOREMS = {"C12": [], "C13": [],
+            "C14": ["split_lines_roundtrip", "split_lines_wf", "terminator_keep", "terminator_lf", "terminator_crlf",
+                    "final_newline_iff", "apply_output_lines"],
+            "C20": ["define_eval"]}
 
 
 # ---------------------------------------------------------------- C12
@@ -409,6 +412,7 @@ def run_c20(run_, rng, tier, exe):
     cases = [applyc.apply_case(applyc.opt_str(D=hx("SYM"), F=0), "unified", c["a"], c["hs"]) for c in fam]
     impl, model = run_both(cases)
     bad, mism = [], []
+    geval = []
     for i, c in enumerate(fam):
         res = applyc.parse_result(impl[i])
         cls = "empty A" if not c["a"] else ("empty B" if not c["b"] else "change")
@@ -424,6 +428,9 @@ def run_c20(run_, rng, tier, exe):
         new = cpp_eval(lines, True, "SYM"); old = cpp_eval(lines, False, "SYM")
         want_new = [t for t, nl in c["b"]]; want_old = [t for t, nl in c["a"]]
         rep = dict(case=cases[i], output=out, A=want_old, B=want_new)
+        # the evaluator the theorem define_eval speaks about (Spec_Define.cpp_eval, extracted), on the same output
+        gl = enc_lines([(t, "L") for t in lines])
+        geval.append((i, "CPPEVAL %s 1 %s" % (hx("SYM"), gl), new)); geval.append((i, "CPPEVAL %s 0 %s" % (hx("SYM"), gl), old))
         if new is None or old is None:
             bad.append((i, "-D output has unbalanced conditionals", rep))
         elif new != want_new:
@@ -439,6 +446,18 @@ def run_c20(run_, rng, tier, exe):
             adds = sum(1 for o, _, _ in sum((h["body"] for h in c["hs"]), []) if o == "+")
             if len(lines) - nd != len(c["a"]) + adds:
                 bad.append((i, "-D output duplicates or drops common lines", rep))
+    # the Gallina evaluator and the Python one must agree on every output seen (the oracle of this check is the specification
+    # of the theorem, not a second opinion)
+    gres = run_model([g[1] for g in geval])
+    for (i, line, py), g in zip(geval, gres):
+        if g == "NONE":
+            got = None
+        else:
+            body = g.split(" ", 1)[1] if " " in g else "-"
+            got = [] if body == "-" else [unhx(x.split(":")[0]).decode("latin-1") for x in body.split(",")]
+        if got != py:
+            bad.append((i, "Spec_Define.cpp_eval and the check's evaluator disagree (%r vs %r)" % (got, py), dict(case=line)))
+            break
     return bad, mism
 
 
